@@ -115,8 +115,10 @@ CHECKS = {
                         "a measurement over the threshold is re-taken up to three times before it counts"],
     },
     "C18": hist("TestC18", 1200, 40, 5000, 60,
-                essential=["valtype_int", "valtype_string", "valtype_ptr", "valtype_bytes", "valtype_big", "valtype_empty", "valtype_any", "gc_with_8", "range"]),
+                essential=["valtype_int", "valtype_string", "valtype_ptr", "valtype_bytes", "valtype_big", "valtype_empty", "valtype_any", "gc_with_8", "range", "moved_value", "large_tree_gc"]),
 }
+CHECKS["C18"]["quick"].append({"test": "TestC18Large", "checks": 5, "timeout": 600, "shrinktime": "1s"})
+CHECKS["C18"]["thorough"].append({"test": "TestC18Large", "checks": 6, "shards": 4, "timeout": 3000, "shrinktime": "1s"})
 for _r in CHECKS["C18"]["quick"] + CHECKS["C18"]["thorough"]:
     _r["variant"] = "checkptr"
 CHECKS["C18"]["thorough"].append({"test": "TestC18", "variant": "race", "checks": 1500, "steps": 40, "shards": 2, "timeout": 3000})
